@@ -140,9 +140,44 @@ func (bs *blockState) callStatic(f *ssa.Function, args []Val, ins ssa.Instructio
 	key := funcKey(f)
 	spec := e.W.Specs.Funcs[key]
 	if spec == nil {
+		spec = e.W.pureDefault(f)
+	}
+	if spec == nil {
 		unsupp("call to %s: no contract", key)
 	}
 	return bs.applyContract(spec, key, args, ins, resT)
+}
+
+// pureStdlib: packages whose package-level functions do not write memory that go-res can reach (they may allocate).
+var pureStdlib = map[string]bool{"strings": true, "strconv": true, "unicode": true, "unicode/utf8": true, "math": true, "math/bits": true, "path": true}
+
+// pureStdlibFuncs: further functions of that kind.
+var pureStdlibFuncs = map[string]bool{"fmt.Sprintf": true, "fmt.Sprint": true, "fmt.Sprintln": true, "fmt.Errorf": true, "errors.New": true, "errors.Is": true, "errors.Unwrap": true, "bytes.Equal": true, "bytes.Compare": true, "bytes.HasPrefix": true, "bytes.HasSuffix": true, "bytes.IndexByte": true, "bytes.LastIndexByte": true, "bytes.Index": true, "bytes.Contains": true}
+
+// pureDefault: the default contract of a side-effect-free standard-library function that has no contract of its own in
+// /verif/specs/deps: it may allocate and returns an arbitrary value of its type. It keeps a function that starts calling,
+// say, strings.ToLower inside the subset, so that the function's own obligations decide (a harmless edit stays harmless,
+// an edit that matters fails the obligation that depends on the value). Listed in the evidence like every trusted contract.
+func (w *World) pureDefault(f *ssa.Function) *FuncSpec {
+	if f == nil || f.Pkg == nil || f.Signature.Recv() != nil || f.Parent() != nil {
+		return nil
+	}
+	path := f.Pkg.Pkg.Path()
+	key := funcKey(f)
+	if !pureStdlib[path] && !pureStdlibFuncs[key] {
+		return nil
+	}
+	sp := &FuncSpec{Key: key, Pkg: f.Pkg.Pkg.Name(), Trusted: true, Modifies: []string{"alloc"},
+		Header:    "default contract (pure standard-library function: allocates, result arbitrary): " + key,
+		Loops:     map[int]*LoopSpec{}, Callbacks: map[string]string{}, CallSites: map[string]string{}}
+	for i := 0; i < f.Signature.Params().Len(); i++ {
+		sp.Params = append(sp.Params, Param{Name: fmt.Sprintf("p%d", i), Type: f.Signature.Params().At(i).Type().String()})
+	}
+	for i := 0; i < f.Signature.Results().Len(); i++ {
+		sp.Results = append(sp.Results, Param{Name: fmt.Sprintf("r%d", i), Type: f.Signature.Results().At(i).Type().String()})
+	}
+	w.Specs.Funcs[key] = sp
+	return sp
 }
 
 func (bs *blockState) applyContract(spec *FuncSpec, key string, args []Val, ins ssa.Instruction, resT types.Type) Val {
@@ -472,6 +507,13 @@ func (bs *blockState) ghostAt(anchor string, ins ssa.Instruction, extra map[stri
 // havocModifies: `modifies` lists heap keys by "Type.field", "bytes", "all", or nothing.
 func (bs *blockState) havocModifies(spec *FuncSpec, vars map[string]Val, ins ssa.Instruction) {
 	e := bs.e
+	if !spec.Trusted {
+		// every go-res function (and client callback) may allocate, whether or not its contract says so: the
+		// allocation mark only grows. (A body that starts allocating is not a contract violation.)
+		old := bs.st.m["alloc"]
+		bs.st.m["alloc"] = e.fresh("alloc", SInt)
+		e.assume(bs.g, app("<=", old, bs.st.m["alloc"]))
+	}
 	for _, m := range spec.Modifies {
 		switch {
 		case m == "nothing" || m == "":
